@@ -1,5 +1,148 @@
-(* MultiIO.v — stub: replaced by the real decoder/runner when the property is built. *)
-From Coq Require Import List.
-From M Require Import Sx.
+(* MultiIO.v — decoding of C10 cases / encoding of observations for Multi.v. *)
+From Coq Require Import List Arith Bool.
+From M Require Import Sx Base Flat FlatIO Multi.
 Import ListNotations.
-Definition run_multi_case (x : sx) : sx := L [N 0].
+
+Definition d_class (x : sx) : option mclass :=
+  match x with
+  | L [lk; gr; hs; asy; N q] =>
+      do lk' <- d_bool lk; do gr' <- d_bool gr; do hs' <- d_bool hs; do asy' <- d_bool asy;
+      Some (mkClass lk' gr' hs' asy' (match q with 0 => QNo | 1 => QYes | _ => QModel end))
+  | _ => None
+  end.
+
+Definition d_op (x : sx) : option op :=
+  match x with
+  | L [N 0; N m; ini] => do i <- d_option d_nat ini; Some (OAddModel m i)
+  | L [N 1; N m] => Some (ORemoveModel m)
+  | L [N 2; N s; sd] => do sd' <- d_sdef sd; Some (OAddState s sd')
+  | L [N 3; N e; t] => do t' <- d_trans t; Some (OAddTransition e t')
+  | L [N 4; N m; bn; N e; N a] => do bn' <- d_bool bn; Some (OTrigger m bn' e a)
+  | L [N 5; N e; N a] => Some (ODispatch e a)
+  | _ => None
+  end.
+
+Definition e_helper (h : helper) : sx :=
+  match h with
+  | HTrig => L [N 0] | HMayTrig => L [N 1] | HEv e => L [N 2; N e] | HMay e => L [N 3; N e]
+  | HIs s => L [N 4; N s] | HTo => L [N 5] | HGraph => L [N 6]
+  end.
+
+Definition e_cres (r : cres) : sx :=
+  match r with
+  | inl e => L [N 1; e_exn e]
+  | inr None => L [N 0; N 2]
+  | inr (Some b) => L [N 0; e_bool b]
+  end.
+
+Definition e_block (b : block) : sx :=
+  L [N (b_model b); e_list e_item (b_items b); e_result (b_res b)].
+
+Definition e_world (n : nat) (w : mworld) : sx :=
+  L [e_list e_nat (w_models w);
+     e_list (fun m => L [e_option e_nat (o_state (w_obj w m)); e_list e_helper (o_helpers (w_obj w m))]) (seq 0 n);
+     e_list e_nat (w_ctx w); e_list e_nat (w_graphs w); e_list e_nat (w_queues w)].
+
+Fixpoint run_mhistory (k : mclass) (ev : env) (n : nat) (hs : list op) (w : mworld) : list sx :=
+  match hs with
+  | [] => []
+  | o :: rest =>
+      match step k ev w o with
+      | (bs, r, w') => L [e_list e_block bs; e_cres r; e_world n w'] :: run_mhistory k ev n rest w'
+      end
+  end.
+
+(* ---------------------------------------------------------------- two machines on one object *)
+Definition d_desc (x : sx) : option (mdesc * list (event * state)) :=
+  match x with
+  | L [N a; sts; evs; au; N i] =>
+      do sts' <- d_list d_nat sts; do evs' <- d_list (d_pair d_nat d_nat) evs; do au' <- d_bool au;
+      Some (mkDesc a sts' (map fst evs') au' i, evs')
+  | _ => None
+  end.
+
+Definition d_oattr (x : sx) : option (option attr) := d_option d_nat x.
+Definition d_hname (x : sx) : option hname :=
+  match x with
+  | L [N 0] => Some NTrig | L [N 1] => Some NMayTrig
+  | L [N 2; N e] => Some (NEv e) | L [N 3; N e] => Some (NMay e)
+  | L [N 4; a; N s] => do a' <- d_oattr a; Some (NIs a' s)
+  | L [N 5; a; N s] => do a' <- d_oattr a; Some (NTo a' s)
+  | L [N 6; a; N s] => do a' <- d_oattr a; Some (NMayTo a' s)
+  | _ => None
+  end.
+Definition e_hname (n : hname) : sx :=
+  match n with
+  | NTrig => L [N 0] | NMayTrig => L [N 1] | NEv e => L [N 2; N e] | NMay e => L [N 3; N e]
+  | NIs a s => L [N 4; e_option e_nat a; N s] | NTo a s => L [N 5; e_option e_nat a; N s]
+  | NMayTo a s => L [N 6; e_option e_nat a; N s]
+  end.
+
+(* the concrete machines of the harness: event e goes to its destination from every state,
+   to_<s> goes to s; is_/may_ calls change nothing *)
+Definition act_of (ev0 ev1 : list (event * state)) (who : nat) (n : hname) (s : state) : state :=
+  match n with
+  | NTo _ t => t
+  | NEv e => match lookup (if Nat.eqb who 0 then ev0 else ev1) e with Some t => t | None => s end
+  | _ => s
+  end.
+
+(* value returned by the call (before the state change): is_<s> compares the OWNER's attribute *)
+Definition call_value (d0 d1 : mdesc) (o : sobj) (n : hname) : bool :=
+  match n, owner_of (so_tbl o) n with
+  | NIs _ s, Some who =>
+      match attr_of o (d_attr (if Nat.eqb who 0 then d0 else d1)) with
+      | Some cur => Nat.eqb cur s
+      | None => false
+      end
+  | _, _ => true
+  end.
+
+Fixpoint run_calls (d0 d1 : mdesc) (ev0 ev1 : list (event * state)) (o : sobj) (cs : list hname) : list sx :=
+  match cs with
+  | [] => []
+  | n :: rest =>
+      match call_name d0 d1 (act_of ev0 ev1) o n with
+      | None => L [N 0] :: run_calls d0 d1 ev0 ev1 o rest
+      | Some o' =>
+          L [N 1; e_bool (call_value d0 d1 o n); e_list (e_pair e_nat e_nat) (so_attrs o')]
+          :: run_calls d0 d1 ev0 ev1 o' rest
+      end
+  end.
+
+(* GraphMachine.__init__ ends with: if not hasattr(self, "get_graph"): self.get_graph = self.get_combined_graph.
+   When one object of the universe is the machine itself it therefore owns that attribute from the start. *)
+Definition graph_self (k : mclass) (w : mworld) (self : option model) : mworld :=
+  match self with
+  | Some m =>
+      if k_graph k then
+        set_objs w (upd_obj (w_obj w) m (mkObj (o_state (w_obj w m)) (add_helper (o_helpers (w_obj w m)) HGraph)))
+      else w
+  | None => w
+  end.
+
+(* case := [0; class; machine; initial; env; ctor models; ctor transitions; universe size; self; history]
+         | [1; hsm; desc0; desc1; calls] *)
+Definition run_multi_case (x : sx) : sx :=
+  match x with
+  | L [N 0; kx; mcx; N ini; evx; imx; itx; N n; selfx; hx] =>
+      match d_class kx, d_machine mcx, d_env evx, d_list d_nat imx,
+            d_list (d_pair d_nat d_trans) itx, d_list d_op hx, d_option d_nat selfx with
+      | Some k, Some mc, Some ev, Some im, Some it, Some hs, Some self =>
+          let w1 := run k ev (init_world mc ini) (map (fun m => OAddModel m None) im) in
+          let w0 := run k ev (graph_self k w1 self) (map (fun p => OAddTransition (fst p) (snd p)) it) in
+          L [N 1; e_world n w0; L (run_mhistory k ev n hs w0)]
+      | _, _, _, _, _, _, _ => L [N 0]
+      end
+  | L [N 1; hx; d0x; d1x; cx] =>
+      match d_bool hx, d_desc d0x, d_desc d1x, d_list d_hname cx with
+      | Some hsm, Some (d0, ev0), Some (d1, ev1), Some cs =>
+          let o := bind_two hsm d0 d1 in
+          L [N 2;
+             e_list (fun n => L [e_hname n; e_option e_nat (owner_of (so_tbl o) n)])
+                    (desc_names hsm d0 ++ desc_names hsm d1);
+             L (run_calls d0 d1 ev0 ev1 o cs)]
+      | _, _, _, _ => L [N 0]
+      end
+  | _ => L [N 0]
+  end.
